@@ -891,6 +891,17 @@ func runReplay(p *Property, path string) int {
 			}
 			return 1
 		}
+		// the case is identified by (layer, unit, index); make sure the enumeration still produces the recorded key there
+		matched := len(c.Samples) == 0
+		for _, s := range c.Samples {
+			if strings.Contains(s, r.Key) {
+				matched = true
+			}
+		}
+		if !matched {
+			fmt.Printf("replay of %s: the enumeration has changed since this file was recorded (position %s/%d/%d now holds another case: %v); re-run the check to obtain a fresh replay file\n", path, r.Layer, r.Unit, r.Index, c.Samples)
+			return 2
+		}
 		fmt.Printf("replay of %s: case passes on this tree (key %s)\n", path, r.Key)
 		return 0
 	}
